@@ -687,17 +687,82 @@ struct Code {
 
 fn oracle_one(ws: &[u128], ty: &str, rng: &mut Rng, rep: &mut Report, brute: bool) {
     let mut fails: Vec<(&'static str, String)> = Vec::new();
-    oracle_inner(ws, ty, rng, rep, brute, &mut fails);
+    oracle_inner(ws, None, ty, rng, rep, brute, &mut fails);
     for (prop, text) in fails {
         rep.fail(prop, format!("huff {} | {} : {}", ty, weights_str(ws), text));
     }
 }
 
-fn oracle_inner(ws: &[u128], ty: &str, rng: &mut Rng, rep: &mut Report, brute: bool, fails: &mut Vec<(&'static str, String)>) {
+/// arbitrary (inexact) float weights: everything except exact optimality
+fn oracle_float(fw: &[f64], ty: &str, rng: &mut Rng, rep: &mut Report) {
+    let mut fails: Vec<(&'static str, String)> = Vec::new();
+    let dummy = vec![0u128; fw.len()];
+    oracle_inner(&dummy, Some(fw), ty, rng, rep, true, &mut fails);
+    for (prop, text) in fails {
+        let bits: Vec<String> = fw
+            .iter()
+            .map(|&x| if ty == "f32" { format!("{:x}", (x as f32).to_bits()) } else { format!("{:x}", x.to_bits()) })
+            .collect();
+        rep.fail(prop, format!("huff-float {} bits {} : {}", ty, bits.join(","), text));
+    }
+}
+
+fn build_float(ty: &str, fw: &[f64]) -> Option<Built> {
+    Some(if ty == "f32" {
+        let v: Vec<f32> = fw.iter().map(|&x| x as f32).collect();
+        let e = guarded(|| EncoderHuffmanTree::from_float_probabilities::<f32, _>(&v));
+        let d = guarded(|| DecoderHuffmanTree::from_float_probabilities::<f32, _>(&v));
+        (flatten_guard(e), flatten_guard(d))
+    } else {
+        let v: Vec<f64> = fw.to_vec();
+        let e = guarded(|| EncoderHuffmanTree::from_float_probabilities::<f64, _>(&v));
+        let d = guarded(|| DecoderHuffmanTree::from_float_probabilities::<f64, _>(&v));
+        (flatten_guard(e), flatten_guard(d))
+    })
+}
+
+/// minimum of `Σ w_s · depth_s` over all full binary trees, in f64 (subset DP as above)
+fn brute_force_cost_f64(ws: &[f64]) -> f64 {
+    let n = ws.len();
+    let full = (1usize << n) - 1;
+    let mut weight = vec![0f64; full + 1];
+    for s in 1..=full {
+        let low = s.trailing_zeros() as usize;
+        weight[s] = weight[s & (s - 1)] + ws[low];
+    }
+    let mut opt = vec![0f64; full + 1];
+    for s in 1..=full {
+        if s & (s - 1) == 0 {
+            continue;
+        }
+        let mut best = f64::INFINITY;
+        let low = s & s.wrapping_neg();
+        let rest = s ^ low;
+        let mut a = rest;
+        loop {
+            let left = low | (rest ^ a);
+            if a != 0 {
+                best = best.min(opt[left] + opt[a]);
+            }
+            if a == 0 {
+                break;
+            }
+            a = (a - 1) & rest;
+        }
+        opt[s] = weight[s] + best;
+    }
+    opt[full]
+}
+
+fn oracle_inner(ws: &[u128], fl: Option<&[f64]>, ty: &str, rng: &mut Rng, rep: &mut Report, brute: bool, fails: &mut Vec<(&'static str, String)>) {
     let replay = || format!("huff {} | {}", ty, weights_str(ws));
     let n = ws.len();
     let opts: Vec<Option<u128>> = ws.iter().map(|&w| Some(w)).collect();
-    let (e, d) = match build(ty, 0, &opts) {
+    let rebuild = |t: &str| match fl {
+        Some(fw) => build_float(t, fw),
+        None => build(t, 0, &opts),
+    };
+    let (e, d) = match rebuild(ty) {
         Some((Ok(e), Ok(d))) => (e, d),
         _ => {
             fails.push(("C15", "construction failed".into()));
@@ -705,7 +770,7 @@ fn oracle_inner(ws: &[u128], ty: &str, rng: &mut Rng, rep: &mut Report, brute: b
         }
     };
     rep.eval("C15");
-    rep.count(&format!("huff.type.{}", ty));
+    rep.count(&format!("huff.type.{}{}", ty, if fl.is_some() { ".inexact" } else { "" }));
     rep.count(&format!("huff.n.{}", if n <= 8 { n.to_string() } else if n <= 64 { "9-64".into() } else { "65+".into() }));
     let mut fail = |what: &str| fails.push(("C15", what.to_string()));
     if e.num_symbols() != n || d.num_symbols() != n {
@@ -818,13 +883,30 @@ fn oracle_inner(ws: &[u128], ty: &str, rng: &mut Rng, rep: &mut Report, brute: b
     }
     // optimality: cost equals the textbook priority-queue cost; and brute force for tiny n
     let cost: u128 = (0..n).map(|s| ws[s] * words[s].len() as u128).sum();
-    if cost != textbook_cost(ws) {
-        fail(&format!("cost {} != textbook Huffman cost {}", cost, textbook_cost(ws)));
-    }
-    if brute && n <= 9 {
-        rep.count("huff.bruteforce");
-        if cost != brute_force_cost(ws) {
-            fail(&format!("cost {} != brute-force optimum {}", cost, brute_force_cost(ws)));
+    match fl {
+        None => {
+            if cost != textbook_cost(ws) {
+                fail(&format!("cost {} != textbook Huffman cost {}", cost, textbook_cost(ws)));
+            }
+            if brute && n <= 9 {
+                rep.count("huff.bruteforce");
+                if cost != brute_force_cost(ws) {
+                    fail(&format!("cost {} != brute-force optimum {}", cost, brute_force_cost(ws)));
+                }
+            }
+        }
+        Some(fw) => {
+            // sums round: optimal only up to rounding (not claimed exactly); finite weights only
+            if n <= 9 && fw.iter().all(|x| x.is_finite()) {
+                rep.count("huff.bruteforce.inexact");
+                let used: Vec<f64> = if ty == "f32" { fw.iter().map(|&x| x as f32 as f64).collect() } else { fw.to_vec() };
+                let c: f64 = (0..n).map(|s| used[s] * words[s].len() as f64).sum();
+                let best = brute_force_cost_f64(&used);
+                let tol = if ty == "f32" { 1e-5 } else { 1e-12 };
+                if c > best * (1.0 + tol) + f64::MIN_POSITIVE {
+                    fail(&format!("cost {} exceeds brute-force optimum {} beyond rounding", c, best));
+                }
+            }
         }
     }
     // deterministic tie-breaking by index: among equal weights, codeword lengths are
@@ -832,18 +914,22 @@ fn oracle_inner(ws: &[u128], ty: &str, rng: &mut Rng, rep: &mut Report, brute: b
     // and rebuilding gives the identical arrays
     for i in 0..n {
         for j in (i + 1)..n.min(i + 40) {
-            if ws[i] == ws[j] && words[i].len() < words[j].len() {
+            let tie = match fl {
+                None => ws[i] == ws[j],
+                Some(fw) => if ty == "f32" { fw[i] as f32 == fw[j] as f32 } else { fw[i] == fw[j] },
+            };
+            if tie && words[i].len() < words[j].len() {
                 fail(&format!("tie {} {} not broken by index", i, j));
             }
         }
     }
-    if let Some((Ok(e2), Ok(d2))) = build(ty, 0, &opts) {
+    if let Some((Ok(e2), Ok(d2))) = rebuild(ty) {
         if enc_nodes(&e2) != enc_nodes(&e) || dec_nodes(&d2) != dec_nodes(&d) {
             fail("construction is not deterministic");
         }
     }
-    // independent of the weight type
-    if ty != "u64" && rng.chance(1, 4) {
+    // independent of the weight type (exact sums only)
+    if fl.is_none() && ty != "u64" && rng.chance(1, 4) {
         if let Some((Ok(e2), Ok(d2))) = build("u64", 0, &opts) {
             if enc_nodes(&e2) != enc_nodes(&e) || dec_nodes(&d2) != dec_nodes(&d) {
                 fail("trees depend on the weight type");
@@ -950,6 +1036,31 @@ pub fn oracle(rng: &mut Rng, tier: &str, rep: &mut Report) {
         oracle_one(&fib, "u64", rng, rep, false);
         fib.reverse();
         oracle_one(&fib, "usize", rng, rep, false);
+    }
+    // arbitrary float weights (sums round): all structural clauses, optimality up to rounding
+    for _ in 0..(if thorough { 20000 } else { 1500 }) {
+        let ty = if rng.chance(1, 2) { "f32" } else { "f64" };
+        let n = match rng.next() % 4 {
+            0 | 1 => rng.range(1, 9),
+            2 => rng.range(2, 40),
+            _ => rng.range(30, 300),
+        } as usize;
+        let style = rng.next() % 5;
+        let fw: Vec<f64> = (0..n)
+            .map(|_| {
+                let u = (rng.next() >> 11) as f64 / (1u64 << 53) as f64;
+                match style {
+                    0 => u,
+                    1 => u * u * u * 1e-3,
+                    2 => (u * 20.0 - 10.0).exp2(),
+                    3 => {
+                        if rng.chance(1, 6) { 0.0 } else if rng.chance(1, 10) { f64::INFINITY } else if rng.chance(1, 10) { 1e-320 } else { (u * 10.0).floor() / 10.0 }
+                    }
+                    _ => f64::from_bits(rng.next() & 0x7fef_ffff_ffff_ffff).min(1e300),
+                }
+            })
+            .collect();
+        oracle_float(&fw, ty, rng, rep);
     }
     // NaN is rejected by both float constructors wherever it occurs (C15 "floats"; C19-like)
     for _ in 0..(if thorough { 2000 } else { 200 }) {
